@@ -344,6 +344,27 @@ theorem C20_ledger_sections_strict2pl :
     ∀ p ∈ ledgerPaths, strict2pl p.2 = true ∧ hasRel p.2 = true := by
   decide +kernel
 
+/-- number of critical sections of lock class `c` on the canonical path of kind `k` -/
+def sectionsOf (k : Kind) (c : Cls) : Nat := ((path k).filter (fun e => e.1 && e.2 == c)).length
+
+/-- generated-table obligations on the extent of critical sections (a moved `drop`, a removed scope
+or a re-taken guard changes the generated paths/edges and breaks one of these):
+* `new_channel` and `forget_channel` do their lookup and their insert/remove in ONE channel-map section;
+* the high-water mark is checked (`new_channel`) and raised (`forget_channel`) while the channel map
+  is held; `forget_channel` takes the slot under the map;
+* `setup_channel` holds the tracker across its single channel-map section (lookup of the stub to
+  insertion of the ready channel, since 07197c0);
+* a channel request holds its slot in one section, with the node ledger nested inside it. -/
+theorem C20_section_extents :
+    sectionsOf .new_channel .channels = 1 ∧ sectionsOf .forget_channel .channels = 1 ∧
+    (Cls.channels, Cls.nodeState) ∈ edges .new_channel ∧
+    (Cls.channels, Cls.nodeState) ∈ edges .forget_channel ∧
+    (Cls.channels, Cls.slot) ∈ edges .forget_channel ∧
+    (Cls.tracker, Cls.channels) ∈ edges .setup_channel ∧
+    sectionsOf .setup_channel .tracker = 1 ∧ sectionsOf .setup_channel .channels = 1 ∧
+    sectionsOf .channel_request .slot = 1 ∧ (Cls.slot, Cls.nodeState) ∈ edges .channel_request := by
+  decide +kernel
+
 /-- non-vacuity: a commitment-update-like request (slot 0, then the node ledger 9, both held to the
 end) and a ledger-only request, strict two-phase, interleaved (thread 0 acquires slot 0 and updates it,
 thread 1 runs completely, thread 0 continues): the execution completes, thread 1 commits first, and
